@@ -212,6 +212,26 @@ func report(res *RunResult, repo, verif string, seed int, writeEvidence bool, wa
 		writeJSON(path, rp)
 		vl.path = path
 	}
+	// bounded stand-ins of this property (never counted among the obligations)
+	var boundedRes []*BoundedResult
+	boundedViol := 0
+	{
+		for _, b := range loadBounded(verif, prop) {
+			br := runBounded(b, repo, verif)
+			boundedRes = append(boundedRes, br)
+			switch br.Status {
+			case "violated":
+				boundedViol++
+				path := boundedReplayFile(verif, prop, br)
+				fmt.Printf("bounded check failed: %s: %s\n", br.Name, strings.Join(br.Violations, "; "))
+				fmt.Printf("VIOLATION property=%s replay=%s\n", prop, path)
+			case "broken":
+				broken = append(broken, fmt.Sprintf("bounded check %s did not run: %s", br.Name, tail(br.Output, 400)))
+			default:
+				fmt.Printf("bounded (not a proof): %s held on %d inputs (%s)\n", br.Name, br.Evaluations, br.Bound)
+			}
+		}
+	}
 	// output
 	for _, k := range knownHit {
 		fmt.Printf("KNOWN-FINDING: property=%s %s [%s]\n", prop, k.WhatFails, k.Obligation)
@@ -268,20 +288,25 @@ func report(res *RunResult, repo, verif string, seed int, writeEvidence bool, wa
 				"known_findings":           kf,
 				"exempt_obligations":       exempt,
 				"packages":                 res.Packages,
+				"bounded_checks":           boundedRes,
 				"samples":                  samples,
 				"explanation":              "every obligation is a verification condition generated from the go/ssa form of the named functions in /repo's working tree (loops cut at invariants, callees replaced by their contracts) and discharged by an SMT solver; obligations listed under known_findings are excluded from the counts",
 			},
 			"assumptions": as,
 			"wall_s":      wall,
-			"violations":  len(viols),
+			"violations":  len(viols) + boundedViol,
 		}
+		for _, br := range boundedRes {
+			as = append(as, fmt.Sprintf("bounded stand-in (not proved): %s for %s - %s", br.Name, strings.Join(br.Functions, ", "), br.Bound))
+		}
+		ev["assumptions"] = as
 		if len(broken) == 0 && total > 0 {
 			writeJSON(filepath.Join(verif, "evidence", prop+".json"), ev)
 		} else if total > 0 {
 			writeJSON(filepath.Join(verif, "evidence", prop+".json"), ev)
 		}
 	}
-	if len(viols) > 0 {
+	if len(viols) > 0 || boundedViol > 0 {
 		return 1
 	}
 	if len(broken) > 0 {
